@@ -44,7 +44,7 @@ META = {
             "non-trivial = distinct (collective, algorithm, np-class>1, placement-class, count-class other than 0, datatype-class, "
             "mode) whose cases were compared on every rank of a run that reached its end",
     "assumptions": ["only the listed count/datatype/operator values are driven; the quick tier visits 2 of the 42 (size, placement) "
-                    "configurations of each algorithm per seed (sizes <= 8) with a stratified sample of 96 calls per collective "
+                    "configurations of each algorithm per seed (sizes <= 8) with a stratified sample of 64 calls per collective "
                     "(thorough: all 42, a stratified sample of 128 calls per collective, 64 for the sizes other than 1,2,3,4,5,7,8,12,16)",
                     "the simulated platform is one homogeneous cluster; placements: one rank per host, blocks of 2, 3 or 4 ranks per "
                     "host, cyclic over 2 or 3 hosts, and a communicator with reversed rank order",
